@@ -410,6 +410,14 @@ class RegExec:
             self._comp(e.generators, 0, env, owner,
                        lambda env2: out.append(self.ev(e.elt, env2, owner)))
             return set(out) if isinstance(e, ast.SetComp) else out
+        if isinstance(e, ast.DictComp):
+            out = {}
+
+            def put(env2):
+                out[self.ev(e.key, env2, owner)] = self.ev(e.value, env2,
+                                                           owner)
+            self._comp(e.generators, 0, env, owner, put)
+            return out
         raise AnalysisError("registration code: unsupported expression %s "
                             "in %s" % (type(e).__name__, owner.qname))
 
